@@ -1,0 +1,6 @@
+//go:build !verif
+// +build !verif
+
+package sarama
+
+func verifPoint(point string, args ...interface{}) {}
